@@ -508,7 +508,7 @@ def run_traced(name, spec, seed, size, budgets, evaluator="map", explicit=False,
             def cb(a):
                 ex = exposed(a) if collect_steps else {}
                 tr.events.append(("step", a.nfe, {k: [tr.snap(s) for s in v] for k, v in ex.items()},
-                                  {k: len(v) for k, v in ex.items()}, len(getattr(a, "population", None) or [])))
+                                  {k: len(v) for k, v in ex.items()}, len(getattr(a, "population", None) or getattr(a, "particles", None) or [])))
             conds = {}
             for N in budgets:
                 tr.events.append(("run", N, alg.nfe))
